@@ -28,6 +28,8 @@ type E1Job struct {
 	Hist    []ops.Op   `json:"hist"`
 	Oracles []string   `json:"oracles"`
 	AllJ    bool       `json:"allj,omitempty"` // C07: all prefixes j instead of {0, n-1, n}
+	Foreign *ForeignSpec `json:"foreign,omitempty"` // C17: the drive starts as a foreign tar archive
+	AbsentIndex bool   `json:"absent_index,omitempty"` // C15: the read-only instance starts without an index
 	HInit   string     `json:"hinit,omitempty"`  // handle level: initial content spec of /f, or "<missing>"
 	HFlags  int        `json:"hflags,omitempty"` // handle level: OpenFile flags
 	Level   string     `json:"level,omitempty"` // "" = afero level (hierarchical reference), "archive" = Operations level (flat reference)
@@ -247,7 +249,9 @@ func Rebuild(env *Env, cfg rig.Config, drive string) (*rig.Stack, error, error) 
 	if err != nil {
 		return nil, nil, err
 	}
-	return st, IndexInto(st, true), nil
+	ierr := IndexInto(st, true)
+	st.ComposeFromIndex()
+	return st, ierr, nil
 }
 
 // IndexInto replays the whole tape of st into st's index (overwrite = wipe first), with the real decrypt/verify callbacks.
@@ -336,6 +340,9 @@ func RunE1(env *Env, job *E1Job) *E1Res {
 	if job.Level == "handle" {
 		return RunE6(env, job)
 	}
+	if job.Level == "ro" {
+		return RunC15(env, job)
+	}
 	res := &E1Res{}
 	ph := &Phase{Name: "setup"}
 	viol := func(prop, class, detail string) {
@@ -352,11 +359,31 @@ func RunE1(env *Env, job *E1Job) *E1Res {
 			return
 		}
 		defer st.Close()
+		m := model.New(os.Getuid(), os.Getgid(), 0o777)
+		if job.Foreign != nil {
+			img, fm, err := BuildForeign(*job.Foreign, os.Getuid(), os.Getgid())
+			if err != nil {
+				res.Key = "unrepresentable" // e.g. a 101-byte component in USTAR
+				res.Diverged = true
+				res.Outcome = "unrepresentable:" + err.Error()
+				return
+			}
+			if err := os.WriteFile(st.Drive, img, 0o600); err != nil {
+				res.Harness = err.Error()
+				return
+			}
+			fm.UID, fm.GID = os.Getuid(), os.Getgid()
+			m = fm
+		}
 		if err := st.Init(); err != nil {
+			if job.Foreign != nil {
+				viol("C17", fmt.Sprintf("C17|open-fails|format=%s|root=%s|names=%s|%s", job.Foreign.Format, job.Foreign.RootStyle, job.Foreign.NameClass, NormErr(err)), fmt.Sprintf("archive: %s\nInitialize failed: %v", job.Foreign, err))
+				res.Diverged = true
+				return
+			}
 			res.Harness = "Initialize on an empty drive failed: " + err.Error()
 			return
 		}
-		m := model.New(os.Getuid(), os.Getgid(), 0o777)
 		useModel := job.Level != "raw"
 		execModel := func(o ops.Op) string {
 			if !useModel {
@@ -385,7 +412,7 @@ func RunE1(env *Env, job *E1Job) *E1Res {
 			ctx.shape = OpShape(m, o)
 			shapeAtOp = ctx.shape
 			ph.Name = "pre-walk"
-			ctx.preTree = rig.Walk(st.FS, "/")
+			ctx.preTree = rig.Walk(st.AFS, "/")
 			vsync.Quiesce()
 			ctx.preTape = readTape(st)
 			ctx.mPre = m.Clone()
@@ -410,7 +437,7 @@ func RunE1(env *Env, job *E1Job) *E1Res {
 		}
 		ctx.m = m
 		ph.Name = "post-walk"
-		ctx.postTree = rig.Walk(st.FS, "/")
+		ctx.postTree = rig.Walk(st.AFS, "/")
 		vsync.Quiesce()
 		ctx.postTape = readTape(st)
 		res.TapeLen = len(ctx.postTape)
@@ -440,7 +467,7 @@ func RunE1(env *Env, job *E1Job) *E1Res {
 		}
 
 		rebuiltKey := ""
-		if has(job.Oracles, "C01") || has(job.Oracles, "C07") || has(job.Oracles, "C04") || has(job.Oracles, "C12") || has(job.Oracles, "C17") {
+		if has(job.Oracles, "C01") || has(job.Oracles, "C01x") || has(job.Oracles, "C07") || has(job.Oracles, "C04") || has(job.Oracles, "C12") || has(job.Oracles, "C17") {
 			ph.Name = "oracle C01"
 			rebuiltKey = ctx.oracleC01()
 		}
@@ -467,6 +494,10 @@ func RunE1(env *Env, job *E1Job) *E1Res {
 		if has(job.Oracles, "C12") {
 			ph.Name = "oracle C12"
 			ctx.oracleC12()
+		}
+		if has(job.Oracles, "C17") && job.Foreign != nil {
+			ph.Name = "oracle C17"
+			ctx.oracleC17()
 		}
 		align := (len(ctx.postTape) / 512) % st.Cfg.RecordSize
 		hk := ""
@@ -620,7 +651,7 @@ func (c *stepCtx) oracleC01() string {
 		if err := ro.Init(); err != nil {
 			c.viol("C01", "C01|reopen-init-error|"+c.shape+"|"+NormErr(err), fmt.Sprintf("history: %s\nInitialize on reopen failed: %v", c.hist(), err))
 		} else {
-			t := rig.Walk(ro.FS, "/")
+			t := rig.Walk(ro.AFS, "/")
 			vsync.Quiesce()
 			if shape, detail := diffTrees(t, c.postTree, true, roleOf); len(shape) > 0 {
 				c.viol("C01", fmt.Sprintf("C01|reopen|%s|%s", c.shape, strings.Join(shape, ",")),
@@ -638,11 +669,18 @@ func (c *stepCtx) oracleC01() string {
 	if ierr != nil {
 		c.viol("C01", fmt.Sprintf("C01|rebuild-error|%s|%s", c.shape, NormErr(ierr)), fmt.Sprintf("history: %s\nrebuilding the index from the tape failed: %v", c.hist(), ierr))
 	}
-	t := rig.Walk(rb.FS, "/")
+	t := rig.Walk(rb.AFS, "/")
 	vsync.Quiesce()
 	if shape, detail := diffTrees(t, c.postTree, true, roleOf); len(shape) > 0 {
 		c.viol("C01", fmt.Sprintf("C01|rebuild|%s|%s", c.shape, strings.Join(shape, ",")),
 			fmt.Sprintf("history: %s\nrebuilt-from-tape instance vs running instance:\n  %s", c.hist(), strings.Join(detail, "\n  ")))
+		if c.job.Foreign != nil {
+			c.viol("C17", fmt.Sprintf("C17|rebuild-differs|after=%s|root=%s|%s", c.shape, c.job.Foreign.RootStyle, strings.Join(shape, ",")),
+				fmt.Sprintf("archive: %s\nhistory: %s\nrebuilt-from-tape instance vs running instance:\n  %s", c.job.Foreign, c.hist(), strings.Join(detail, "\n  ")))
+		}
+	}
+	if ierr != nil && c.job.Foreign != nil {
+		c.viol("C17", fmt.Sprintf("C17|rebuild-error|after=%s|root=%s|%s", c.shape, c.job.Foreign.RootStyle, NormErr(ierr)), fmt.Sprintf("archive: %s\nhistory: %s\nrebuild failed: %v", c.job.Foreign, c.hist(), ierr))
 	}
 	rows, err := rig.DumpIndex(rb.Index)
 	if err != nil {
@@ -784,7 +822,7 @@ func isZeroBlock(b []byte) bool {
 
 // oracleC13: namespace well-formedness and listing/lookup agreement.
 func (c *stepCtx) oracleC13() {
-	fsys := c.st.FS
+	fsys := c.st.AFS
 	// (1) live rows = reachable set
 	reach := map[string]rig.Entry{}
 	for _, e := range c.postTree {
